@@ -28,6 +28,9 @@ var corpus = []string{
 	`query Op { a { a1 ... @defer { a1 name } } }`,
 	`query Op { ... @defer { scalar a { a1 } } strict }`,
 	`query Op { b { other { a1 ... @defer { a1 strictPeer { a1 } } } } }`,
+	// one label group whose fields are not adjacent in collection order, next to another group and plain fields
+	`query Op { a { id ... @defer(label: "x") { a1 } name ... @defer(label: "y") { inl } ... @defer(label: "x") { a2 } } }`,
+	`query Op { as { ... @defer(label: "x") { a1 } id ... @defer(label: "x") { a2 name } } }`,
 }
 
 type descr struct {
@@ -224,7 +227,7 @@ func Run(c *gen.Ctx) error {
 	meta.Evaluations = cf.Len()
 	meta.Programs = len(probes)
 	meta.DistinctNontrivial = len(distinct)
-	meta.Rule = "10 pinned deferred operations (several labels per object, groups inside lists, nested groups, if: false / variable, spreads, a field both deferred and not, @defer at the root) plus random valid operations with @defer on inline fragments and spreads (any if/label) x oracles with 0-2 failures (error, panic, null) anywhere and random resolver delays (completion orders) on probe servers generated from the current templates; all payloads recorded in arrival order. distinct_nontrivial = distinct (operation, oracle) with at least two incremental payloads."
+	meta.Rule = "12 pinned deferred operations (several labels per object, one label used by two fragments around other fields, groups inside lists, nested groups, if: false / variable, spreads, a field both deferred and not, @defer at the root) plus random valid operations with @defer on inline fragments and spreads (any if/label) x oracles with 0-2 failures (error, panic, null) anywhere and random resolver delays (completion orders) on probe servers generated from the current templates; all payloads recorded in arrival order. distinct_nontrivial = distinct (operation, oracle) with at least two incremental payloads."
 	meta.Samples = []any{descrs[0], descrs[len(descrs)/2]}
 	meta.Distribution = map[string]any{"operations": len(ops), "plans": len(plan), "configurations": len(probes), "generated_but_invalid_discarded": invalid, "payload_counts": stats}
 	return meta.Write(c.OutDir)
